@@ -485,6 +485,14 @@ class TaskDispatcher(object):
                 # Cancel the timeout previously set for this orphaned_response.
                 self.state_engine.event_dispatcher.clear_timeout(timeout_id)
                 del self.orphaned_responses[correlation_id]
+                """
+                If it is another response with the same correlation_id that
+                is being handled (e.g. an errored rpcmessage response and
+                a TaskToken callback) the parked one is superseded, so it
+                must be acknowledged here as nothing else refers to it.
+                """
+                if m is not message:
+                    m.acknowledge(multiple=False)
 
             del self.pending_requests[correlation_id]
 
